@@ -298,7 +298,7 @@ def row_provenance(P, rep, F, row_loop, call, dim, rule):
     args = call["c"][1:]
     depth = sc(args[1])
     want_depth = "string_to_double(data[%s][%d])" % (P.d(iv).get("n"), dim)
-    got_depth = norm.render(P, depth).replace("(anonymous namespace)::", "").replace("WorldBuilder::Utilities::", "")
+    got_depth = norm.render(P, depth, subst=norm.naming_locals(P, F)).replace("(anonymous namespace)::", "").replace("WorldBuilder::Utilities::", "")
     coords = sc(args[0])
     init = None
     if coords.get("k") == "DeclRefExpr":
@@ -313,7 +313,7 @@ def row_provenance(P, rep, F, row_loop, call, dim, rule):
         for x in F.walk(e):
             s = astq.subscript(x)
             if s:
-                s2 = astq.subscript(s[0])
+                s2 = astq.subscript(astq.resolve_alias(P, F, s[0]))
                 if s2 and sc(s2[0]).get("n") == "data" and astq.is_ref_to(s2[1], iv) and sc(s[1]).get("k") == "IntegerLiteral":
                     found = sc(s[1])["v"]
         idxs.append(found)
@@ -364,7 +364,7 @@ def dat_input_discipline(P, rep, rule="DAT.input"):
                    "irrelevant); (c) the row loops skip only empty rows and rows starting with '#', every other row meets the release-active "
                    "`dim + 1 entries` check; (d) in 2D a release-active refusal of 'convert spherical' comes before the first output")
     F = main_of(P, "gwb-dat")
-    R = lambda n: norm.render(P, n, nocast=True).replace(" ", "")
+    R = lambda n: norm.render(P, n, nocast=True, subst=norm.naming_locals(P, F)).replace(" ", "")
     # (a) the getline target
     gl = [x for x in F.walk() if x.get("k") == "CallExpr" and P.d(x.get("callee")).get("n") == "getline"]
     if len(gl) != 1:
@@ -424,15 +424,18 @@ def dat_input_discipline(P, rep, rule="DAT.input"):
             continue
         asserts_ = [y for y in F.walk(x["c"][1]) if y.get("k") == "DoStmt" and y.get("m") == "WBAssertThrow" and "dim+1" in R(y).replace("(", "").replace(")", "")]
         c = R(x["c"][0])
-        if not asserts_ or "data[" not in c or "size()" not in c:
+        if not asserts_ or "data[" not in c or not ("size()" in c or "empty()" in c):
             continue
         direct = [y for y in asserts_ if astq.enclosing(F, y, ("IfStmt",)) is x]
         if not direct:
             continue
         nrows += 1
         m = re.match(r'^\(\(data\[(\w+)\]\.size\(\)>0\)&&\(data\[\1\]\[0\]!="#"\)\)$', c)
-        m2 = re.match(r'^\(\(!data\[(\w+)\]\.empty\(\)\)&&\(data\[\1\]\[0\]!="#"\)\)$', c)
-        first = astq.stmts_of(x["c"][1])[0] if astq.stmts_of(x["c"][1]) else None
+        m2 = re.match(r'^\(\(?!data\[(\w+)\]\.empty\(\)\)?&&\(data\[\1\]\[0\]!="#"\)\)$', c)
+        nl = norm.naming_locals(P, F)
+        body_st = [st for st in astq.stmts_of(x["c"][1])
+                   if not (st.get("k") == "DeclStmt" and all(v.get("k") != "VarDecl" or v.get("r") in nl.vals for v in st.get("c", [])))]
+        first = body_st[0] if body_st else None
         if (m or m2) and first is direct[0]:
             rep.ok(rule, "(c) row loop at %s: only empty and '#' rows are skipped, the arity check comes first" % F.nloc(x), F.nloc(x), F.qn)
         else:
@@ -863,12 +866,16 @@ def filter_copy(P, rep, rule="FILTER"):
     if len(nv) != 1 or R(nv[0]["c"][0]) not in ("((dim==3)?8:4)", "((dim==2)?4:8)", "((3==dim)?8:4)"):
         problems.append("n_vert_per_cell is %s (expected (dim==3)?8:4)" % (R(nv[0]["c"][0]) if nv else "not found"))
     else:
-        symv = norm.Sym(P, F, inline_locals=False)
+        NV = sp.Symbol("N_VERT", positive=True, integer=True)
+        symv = norm.Sym(P, F, inline_locals=False, inline_consts=True, env={nv[0]["r"]: NV})
         vloops = []
         for x in F.walk():
             if x.get("k") == "ForStmt" and x["c"][0] is not None and x["c"][0].get("k") == "DeclStmt":
                 iv = x["c"][0]["c"][0]
-                if iv.get("k") == "VarDecl" and iv.get("c") and any(y.get("k") == "DeclRefExpr" and y.get("n") == "cellidx" for y in F.walk(iv["c"][0])):
+                # a per-cell vertex loop: its variable indexes the connectivity of the input mesh
+                uses_conn = any(astq.subscript(y) is not None and astq.is_ref_to(astq.subscript(y)[1], iv.get("r")) and "connectivity" in R(astq.subscript(y)[0])
+                                for y in F.walk(x["c"][3]))
+                if iv.get("k") == "VarDecl" and iv.get("c") and uses_conn:
                     vloops.append((x, iv))
         if len(vloops) != 2:
             problems.append("%d per-cell vertex loops (2 expected: tag scan and copy)" % len(vloops))
@@ -876,15 +883,14 @@ def filter_copy(P, rep, rule="FILTER"):
             cond = sc(x["c"][1])
             good = False
             if cond is not None and cond.get("k") == "BinaryOperator" and cond.get("op") == "<" and astq.is_ref_to(cond["c"][0], iv["r"]):
-                n_ = symv(nv[0]) if False else None
                 lo, hi = sp.expand(symv(iv["c"][0])), sp.expand(symv(cond["c"][1]))
                 d = sp.expand(hi - lo)
-                nsym = [a for a in d.free_symbols if str(a).startswith("n_vert_per_cell")]
-                csym = [a for a in lo.free_symbols if str(a).startswith("cellidx")]
-                if len(nsym) == 1 and len(csym) == 1 and d == nsym[0] and sp.expand(lo - csym[0] * nsym[0]) == 0:
+                csym = [a_ for a_ in lo.free_symbols if str(a_).startswith("cellidx")]
+                if len(csym) == 1 and sp.expand(d - NV) == 0 and sp.expand(lo - csym[0] * NV) == 0:
                     good = True
-                inc = R(x["c"][2]) if x["c"][2] is not None else ""
-                good = good and inc.strip("()") in ("++idx", "idx++", "idx+=1")
+                inc = sc(x["c"][2]) if x["c"][2] is not None else None
+                good = good and inc is not None and ((inc.get("k") == "UnaryOperator" and inc.get("op") == "++" and astq.is_ref_to(inc["c"][0], iv["r"]))
+                                                      or (inc.get("k") == "CompoundAssignOperator" and inc.get("op") == "+=" and astq.is_ref_to(inc["c"][0], iv["r"]) and sc(inc["c"][1]).get("v") == 1))
             if not good:
                 problems.append("vertex loop at line %s runs `%s ; %s`, not over [cellidx*n, (cellidx+1)*n)" % (x.get("l"), R(iv["c"][0]), R(x["c"][1])))
     # (a) data copy loop
